@@ -15,7 +15,7 @@ ANCHORS = ['mpilot/libraries/eems/fuzzy.py:FuzzyOr.execute', 'mpilot/libraries/e
 LEVEL = "exploration"
 RULE = ("operator x parameter x input-order x layout cases; n<=3 inputs enumerate the complete 18^n value/missing lattice as "
         "array cells (rank 2-3 shapes also with inputs in Fortran-order / strided / negative-stride memory), n=4,5 sample cell tuples; a case is distinct by (operator, n, params, layout rank, order class)")
-REQUIRED_COUNTERS = ["ref_postconditions", "law_checks", "cells_compared", "repeated_field_cases", "mixed_dtype_cases", "saturated_field_cases", "memory_layout_cases", "plain_ndarray_cases", "large_rasters_checked", "real_producer_cases", "program_copies_checked"]
+REQUIRED_COUNTERS = ["command_object_input_calls", "ref_postconditions", "law_checks", "cells_compared", "repeated_field_cases", "mixed_dtype_cases", "saturated_field_cases", "memory_layout_cases", "plain_ndarray_cases", "large_rasters_checked", "real_producer_cases", "program_copies_checked"]
 EXHAUSTIVE_NOTE = "complete {17 fuzzy values + missing}^n lattice for n = 1, 2, 3 in both tiers"
 ASSUMPTIONS = ["reference models in mpv/ref.py (exact rationals) are the EEMS definitions as stated in the property",
                "numpy masked-array primitives are trusted", "FuzzyXOr with one input, k outside 1..n and zero weight sums are don't-care"]
@@ -209,8 +209,13 @@ def _weights_as(params, how):
 
 
 def _call(op, inputs, params, refs=None):
-    out, _ = arr.run_cmd(op, inputs, params, fuzzy_inputs=True, refs=refs)
+    out, prog = arr.run_cmd(op, inputs, params, fuzzy_inputs=True, refs=refs, objects="own")     # a quarter: fields handed over as command objects
+    if getattr(prog, "_mpv_object_mode", False):
+        _objmode["n"] += 1
     return out
+
+
+_objmode = {"n": 0}
 
 
 def _rank_key(shape):
@@ -259,6 +264,10 @@ def run_biglaw(ctx, case):
             i = int(numpy.flatnonzero(bad.ravel())[0])
             ctx.fail("%s:value:large-raster" % op, {"cell": i, "got": float(rd.ravel()[i]), "want": float(want[like].ravel()[i]), "shape": list(shape), "params": params})
             return
+
+
+def finish(ctx):
+    ctx.count("command_object_input_calls", _objmode["n"])
 
 
 def run_case(ctx, case):
@@ -361,6 +370,13 @@ def _run_real(ctx, case, op, n, params, cols, inputs, shape):
         prog.add_command(prog.find_command_class("FuzzyNot"), "P%d" % k, {"InFieldName": "S%d" % k})
     prog.add_command(prog.find_command_class(op), "Res", dict(params, InFieldNames=["P%d" % k for k in range(n)]))
     runs = [(prog, cols, "")]
+    if not case.get("in_copy") and not write and case["rseed"] % 3 == 1:
+        # before anything is evaluated the caller swaps other source fields in under the same names: the program computes from
+        # the fields it holds when it is run
+        ctx.count("source_fields_replaced_before_the_run")
+        for k in range(n):
+            arr.standin(prog, "S%d" % k, numpy.ma.array(numpy.ma.getdata(inputs[k]).copy(), mask=numpy.ma.getmaskarray(inputs[k]).copy()), fuzzy=True)     # the negated field
+        runs = [(prog, [[None if v is None else -v for v in c] for c in cols], ":source-fields-replaced-before-the-run")]
     if case.get("in_copy"):
         clone = copy.deepcopy(prog)
         ctx.count("program_copies_checked")
